@@ -30,4 +30,23 @@ def classify(name, case, msg):
             and set(case["aliased_results"]) <= set(case.get("rank1_reshapes", [])) \
             and set(case.get("bad_survivors", ["?"])) <= set(case["aliased_results"]):
         return "F-reshape-1d-alias"
+    # ---- inputs consumed by every operation (harness/c20.py gen_consume / check_consume)
+    if name.startswith("consume:"):
+        op = case.get("op")                      # None: the worker was killed while the task ran
+        kernel_op = op is None or op.startswith(("add", "asformat", "reshape"))
+        noncontig = case.get("parts_layout") in ("strided", "negative") or \
+            any(l in ("strided", "negative") for l in (case.get("array_layouts") or []))
+        # F-c20-strided-constituent-arrays.  Region: a constituent array that is not C-contiguous — given to
+        # from_constituent_arrays, or the attribute of a scipy input (asarray(copy=None/False) hands it on as it is) — and an
+        # operation executed by a compiled kernel (the kernels take identity-layout memrefs; get_constituent_arrays / to_scipy,
+        # which honour the strides, are right).  copy=True copies the scipy attributes and is outside the region.
+        if noncontig and kernel_op and not (name.startswith("consume:scipy:") and case.get("copy") is True):
+            return "F-c20-strided-constituent-arrays"
+        # F-c20-noncanonical-scipy-operand.  Region: a scipy input with has_canonical_format == False (asarray then builds level
+        # formats with the NonOrdered / NonUnique properties) and an operation executed by a compiled kernel; for duplicate entries
+        # also the meaning of the backend array itself (SparseV.C20.ExcludedDuplicates: the level walk reads the first of two
+        # entries with the same index, scipy means their sum — scipy_meaning_sum_counterexample / _partial).
+        if name.startswith("consume:scipy:") and case.get("scipy_canonical") is False and not noncontig:
+            if kernel_op or (op == "meaning" and "duplicate" in str(case.get("input"))):
+                return "F-c20-noncanonical-scipy-operand"
     return None
